@@ -342,6 +342,55 @@ theorem regression_line_rewritten_later :
     blame r'.st.log r'.st.notes 9 = some 1 ∧ headOnlyCredit r.st.log r.st.notes 9 = none ∧
     replayCredit 2 r.st.log r.st.notes 9 = some 1 := by decide
 
+/-- **the lines of a rewritten commit's note come from the replay alone (regression).** Commit 1: session 1
+    adds `9`; commit 2: session 2 adds `8` below it (its note: line 3); commit 3: a person adds `7` between
+    them (line 3 of that commit). Interactive rebase with `fixup` (or `squash`) of commit 2 into commit 1 onto
+    an upstream that changed another file: two new commits, `[1, 9, 8, 2, 3]` and `[1, 9, 7, 8, 2, 3]`. The
+    replay finds no AI line in the second one: its note is empty, `7` is nobody's, `9` and `8` keep their
+    sessions. Before the repair a rewritten commit in which the replay found nothing was given the raw note of
+    the source commit at the same position of the range (`positionalNoteCopy`; the code pairs source and new
+    commits by position). Here that is commit 2's note, whose line 3 is the person's `7` in the new commit:
+    blame over the notes with that copy credits `7` to session 2 (last conjunct). -/
+theorem regression_fixup_person_commit_next :
+    let r := rrun ⟨{ head := [1, 2, 3], index := [1, 2, 3], work := [1, 2, 3] }, []⟩
+      [.base (.aiEdit 1 [1, 9, 2, 3]), .base .stageAll, .base .commit,
+       .base (.aiEdit 2 [1, 9, 8, 2, 3]), .base .stageAll, .base .commit,
+       .base (.humanEdit [1, 9, 7, 8, 2, 3]), .base .stageAll, .base .commit]
+    let r' := rstep r (.replay 3 [(([1, 2, 3], [1, 2, 3]), [])] none [[1, 9, 8, 2, 3], [1, 9, 7, 8, 2, 3]])
+    let old := positionalNoteCopy (r.st.notes.take 3).reverse 1 (r'.st.notes.headD [])
+    r'.st.head.map (blame r'.st.log r'.st.notes) = [none, some 1, none, some 2, none, none] ∧
+    r'.st.notes.head? = some [] ∧ old = [(3, 2)] ∧
+    blame r'.st.log (old :: r'.st.notes.tail) 7 = some 2 := by decide
+
+/-- the same with the first two commits swapped instead (as many new commits as source commits): commit 1:
+    session 2 adds `8` (note: line 3); commit 2: a person adds `6, 7` higher up (lines 2-3 of the reordered
+    commit, which comes first). The positional partner of the new first commit is the source commit 1. -/
+theorem regression_reorder_person_commit_first :
+    let r := rrun ⟨{ head := [1, 2, 3, 4], index := [1, 2, 3, 4], work := [1, 2, 3, 4] }, []⟩
+      [.base (.aiEdit 2 [1, 2, 8, 3, 4]), .base .stageAll, .base .commit,
+       .base (.humanEdit [1, 6, 7, 2, 8, 3, 4]), .base .stageAll, .base .commit]
+    let r' := rstep r (.replay 2 [(([1, 2, 3, 4], [1, 2, 3, 4]), [])] none [[1, 6, 7, 2, 3, 4], [1, 6, 7, 2, 8, 3, 4]])
+    let old := positionalNoteCopy (r.st.notes.take 2).reverse 0 ((r'.st.notes.drop 1).headD [])
+    r'.st.head.map (blame r'.st.log r'.st.notes) = [none, none, none, none, some 2, none, none] ∧
+    old = [(3, 2)] ∧
+    blame r'.st.log (r'.st.notes.head?.toList ++ old :: r'.st.notes.drop 2) 7 = some 2 := by decide
+
+/-- the same copy in a cherry-pick, with the RIGHT partner: the picked commit adds a person's `7` (line 2) and
+    session 1's `9` (note: line 4); upstream has typed `9` itself already (a person) and two lines `5, 6` at the
+    top. The new commit adds `7` only — at line 4. The replay credits nothing in it (every line nobody's: `9` is
+    the upstream commit's); the source note's line 4 would have been the person's `7`. -/
+theorem regression_cherry_pick_ai_line_already_upstream :
+    let src := rrun ⟨{ head := [1, 2, 3], index := [1, 2, 3], work := [1, 2, 3] }, []⟩
+      [.base (.humanEdit [1, 7, 2, 3]), .base (.aiEdit 1 [1, 7, 2, 9, 3]), .base .stageAll, .base .commit]
+    let main := rrun ⟨{ head := [1, 2, 3], index := [1, 2, 3], work := [1, 2, 3] }, []⟩
+      [.base (.humanEdit [5, 6, 1, 2, 9, 3]), .base .stageAll, .base .commit]
+    let r' := rstep main (.replay 0 [] (some (src.st.log, src.st.notes)) [[5, 6, 1, 7, 2, 9, 3]])
+    let old := positionalNoteCopy (src.st.notes.take 1).reverse 0 (r'.st.notes.headD [])
+    src.st.notes.head? = some [(4, 1)] ∧
+    r'.st.head.map (blame r'.st.log r'.st.notes) = [none, none, none, none, none, none, none] ∧
+    r'.st.notes.head? = some [] ∧ old = [(4, 1)] ∧
+    blame r'.st.log (old :: r'.st.notes.tail) 7 = some 1 := by decide
+
 /-! ## 2. Aborted, failing and dry-run operations -/
 
 /-- in the model an operation that aborts, fails or is a dry run changes nothing: notes, working
@@ -517,6 +566,9 @@ end GitAi.RJ
 #print axioms GitAi.Sys.witness_agent_resolution_line_lost
 #print axioms GitAi.Sys.regression_block_of_several_authors
 #print axioms GitAi.Sys.regression_line_rewritten_later
+#print axioms GitAi.Sys.regression_fixup_person_commit_next
+#print axioms GitAi.Sys.regression_reorder_person_commit_first
+#print axioms GitAi.Sys.regression_cherry_pick_ai_line_already_upstream
 #print axioms GitAi.Sys.aborted_is_identity
 #print axioms GitAi.Sys.stash_roundtrip_partial
 #print axioms GitAi.Sys.regression_stash_upstream_above
